@@ -484,6 +484,92 @@ def default_headers():
     if not out: raise PE('default headers')
     return out
 
+def norm(x):
+    return re.sub(r'\s+', '', x)
+
+def fn_block(src, name):
+    m = re.search(r'fn\s+' + re.escape(name) + r'\b[^({;]*\(', src)
+    if not m: raise PE(f'fn {name} not found')
+    i = m.end(); depth = 1
+    while depth:
+        depth += {'(': 1, ')': -1}.get(src[i], 0); i += 1
+    k = src.index('{', i); depth = 1; j = k + 1; in_str = False
+    while depth:
+        ch = src[j]
+        if in_str:
+            if ch == '\\': j += 1
+            elif ch == '"': in_str = False
+        else:
+            if ch == '"': in_str = True
+            elif ch == '{': depth += 1
+            elif ch == '}': depth -= 1
+        j += 1
+    return src[k + 1:j - 1]
+
+def chain_calls(expr):
+    """`base.m1(a).m2(b)…` -> [(m1, a), (m2, b), …] (top level only)"""
+    out = []; i = 0; depth = 0
+    while i < len(expr):
+        ch = expr[i]
+        if ch in '([{': depth += 1
+        elif ch in ')]}': depth -= 1
+        elif ch == '.' and depth == 0:
+            m = re.match(r'\.(\w+)\(', expr[i:])
+            if m:
+                j = i + m.end(); d = 1
+                while d:
+                    d += {'(': 1, ')': -1}.get(expr[j], 0); j += 1
+                out.append((m.group(1), expr[i + m.end():j - 1]))
+                i = j; continue
+        i += 1
+    return out
+
+def web_wiring():
+    """WebServer::new (what goes into ServerState, and any statement before it), WebServer::config (the scope's call chain),
+    api_scope() (the services), index (route)"""
+    lib = strip_tests(re.sub(r'//[^\n]*', '', open(os.path.join(REPO, 'server/src/lib.rs')).read()))
+    mod = strip_tests(re.sub(r'//[^\n]*', '', open(os.path.join(REPO, 'server/src/api/mod.rs')).read()))
+    nb = fn_block(lib, 'new')
+    m = re.search(r'ServerState\s*\{(.*?)\}\s*\)', nb, re.S)
+    if not m: raise PE('ServerState literal')
+    fields = []
+    for part in re.split(r',(?![^()]*\))', m.group(1)):
+        part = part.strip()
+        if not part: continue
+        if ':' in part:
+            f, e = part.split(':', 1); fields.append((f.strip(), norm(e)))
+        else:
+            fields.append((part, part))
+    before = norm(nb[:nb.index('Self')])
+    new_w = [('before', before)] + [('ServerState.' + f, e) for f, e in fields]
+    cb = fn_block(lib, 'config')
+    m = re.search(r'web::scope\(\s*"([^"]*)"\s*\)', cb)
+    if not m: raise PE('web::scope')
+    # the chain after web::scope("")
+    start = m.end(); depth = 0; j = start
+    while j < len(cb):
+        ch = cb[j]
+        if ch in '([{': depth += 1
+        elif ch in ')]}':
+            if depth == 0: break
+            depth -= 1
+        j += 1
+    chain = []
+    for name, arg in chain_calls(cb[start:j]):
+        a = norm(arg)
+        if name == 'wrap':
+            dh = re.fullmatch(r'middleware::DefaultHeaders::new\(\)((?:\.add\(\("[^"]*","[^"]*"\)\))+)', re.sub(r'\s+(?=[^"]*(?:"[^"]*"[^"]*)*$)', '', arg))
+            a = 'DefaultHeaders' if dh else a
+        chain.append((name, a))
+    scope = [('scope', m.group(1))] + chain
+    other = norm(cb[:m.start()]) + '|' + norm(cb[j:])
+    scope.append(('around', other))
+    ab = fn_block(mod, 'api_scope')
+    services = [norm(a) for n, a in chain_calls(ab[ab.index('web::scope'):]) if n == 'service']
+    idx = re.search(r'#\[(get|post)\("([^"]*)"\)\]\s*async\s+fn\s+index', lib)
+    index = (idx.group(1).upper(), idx.group(2)) if idx else ('?', '?')
+    return new_w, scope, services, index
+
 def lstr(x):
     return '"' + x.replace('\\', '\\\\').replace('"', '\\"') + '"'
 
@@ -504,17 +590,28 @@ def extract():
     except Exception as e:
         dh = None; source['defaultHeaders'] = f'not-translated ({e})'
     source['routes'] = 'translated' if len(routes) == 4 else 'not-translated (a handler could not be read)'
+    try:
+        parts['_web'] = web_wiring(); source['web'] = 'translated'
+    except Exception as e:
+        parts['_web'] = None; source['web'] = f'not-translated ({type(e).__name__}: {e}); behavioural correspondence only'
     return parts, routes, dh, source
 
 def render(parts, routes, dh, stated):
     L = ["/- GENERATED by tools/handlers2lean.py from /repo's current server/src/api/*.rs and server/src/lib.rs on every check run. Do not edit. -/",
          'import Tcs.Model.Http', 'namespace Tcs', 'namespace HandlerSrc', '']
     for k in ['clientIdHeader'] + [h[0] for h in HANDLERS]:
-        L.append(parts[k] if parts[k] is not None else stated['parts'][k])
+        L.append(parts[k] if parts.get(k) is not None else stated['parts'][k])
     rts = routes if len(routes) == 4 else [tuple(x) for x in stated['routes']]
     L.append('def routes : List (String × String × String) :=\n  [' + ', '.join(f'({lstr(a)}, {lstr(b)}, {lstr(c)})' for a, b, c in rts) + ']')
     d = dh if dh is not None else [tuple(x) for x in stated['dh']]
     L.append('def defaultHeaders : List (String × String) :=\n  [' + ', '.join(f'({lstr(a)}, {lstr(b)})' for a, b in d) + ']')
+    web = parts.get('_web') if parts.get('_web') is not None else stated['parts']['_web']
+    new_w, scope, services, index = web
+    pl = lambda l: '[' + ', '.join(f'({lstr(a)}, {lstr(b)})' for a, b in l) + ']'
+    L.append('def webNew : List (String × String) :=\n  ' + pl(new_w))
+    L.append('def scopeChain : List (String × String) :=\n  ' + pl(scope))
+    L.append('def apiServices : List String :=\n  [' + ', '.join(lstr(x) for x in services) + ']')
+    L.append(f'def indexRoute : String × String := ({lstr(index[0])}, {lstr(index[1])})')
     L += ['end HandlerSrc', 'end Tcs', '']
     return '\n'.join(L)
 
@@ -535,7 +632,8 @@ def extract_and_write(path):
     diff = {}
     if stated:
         for k, v in parts.items():
-            if v is not None and v != stated['parts'].get(k): diff[k] = True
+            sv = stated['parts'].get(k)
+            if v is not None and json.loads(json.dumps(v)) != sv: diff[k] = True
         if len(routes) == 4 and [list(x) for x in routes] != stated['routes']: diff['routes'] = True
         if dh is not None and [list(x) for x in dh] != stated['dh']: diff['defaultHeaders'] = True
     return {'source': source, 'differs_from_stated': diff}
